@@ -94,3 +94,27 @@ for nw, tier, to in ((3, "quick", 400), (5, "thorough", 1800)):
         assumptions=["struct bitstream invariant: live<=63, bits below the live ones are zero; words are 32-bit aligned in the file (work() reads the 4-byte header first)",
                      "while the second half of a CRC field is awaited, stored_crc holds the 16-bit first half (set by the preceding step)"],
         outside=["more than %d input words per call (the parser is a finite automaton over 16-bit units; longer inputs repeat the loop)" % nw])
+
+# ------------------------------------------------------------------------------- decoding tables + symbol lookup
+for L, W, NA, tier, to in ((5, 2, 5, "quick", 300), (6, 3, 6, "quick", 400), (7, 3, 7, "thorough", 1800)):
+    add("tree_symbol_L%d_W%d_A%d" % (L, W, NA), "h_tree.c", "h_tree_symbol", {"C05": tier, "C06": tier},
+        defines=["-DVERIF_MAX_CODE_LENGTH=%d" % L, "-DVERIF_HUFF_START_WIDTH=%d" % W, "-DNA=%d" % NA],
+        cbmc=["--unwind", str(max(10, (1 << W) + 2))], backend="kissat", timeout=to, mem_gb=6, extra_src=["crctab.c"],
+        functions=["src/decode.c:make_tree", "src/decode.c:retrieve (state S_PREFIX, slow-path symbol lookup)"],
+        bounds="SCALED build: MAX_CODE_LENGTH=%d (production 20), HUFF_START_WIDTH=%d (production 10), alphabet of %d symbols with arbitrary code lengths 1..%d, any 32 input bits" % (L, W, NA, L),
+        assumptions=["scaled format constants through the guarded hooks in common.h/decode.c; the algorithm text is the production text",
+                     "execution observed and cut at hook VERIF_POINT(SYMBOL_SLOW) after the first decoded symbol"],
+        outside=["production constants (20-bit codes, 1024-entry start table, 258 symbols) did not fit the budget", "the fast-path copy of the lookup (taken when >= 32 input words are available)"])
+
+# ------------------------------------------------------------------------------- emit(): resumable run-length decoder
+EMIT_FUNCS = ["src/decode.c:emit"]
+for nm, nb, vmax, crc, tier, to in (("emit_split_n5", 5, 2, False, "quick", 600), ("emit_crc_n4", 4, 1, True, "quick", 600),
+                                    ("emit_split_n6", 6, 3, False, "thorough", 3000), ("emit_crc_n5", 5, 2, True, "thorough", 3000)):
+    add(nm, "h_emit.c", "h_emit_split", {"C09": tier, "C05": tier, "C06": tier, "C01": tier, "C15": tier if crc else "thorough"},
+        defines=["-DNB=%d" % nb, "-DVMAX=%d" % vmax] + ([] if crc else ["-DNO_CRC"]), extra_src=["crctab.c"],
+        cbmc=["--unwind", str(nb + 7), "--unwindset", "emit.0:%d,emit.1:%d,emit.2:%d,emit.3:%d,emit.4:%d" % (vmax + 2, vmax + 2, vmax + 2, vmax + 2, nb + 2)],
+        backend="kissat", timeout=to, mem_gb=8, functions=EMIT_FUNCS,
+        bounds="decoded block of <= %d bytes (byte values 0..%d, arbitrary in-range IBWT links), emitted through up to three output buffers of arbitrary sizes; %s"
+               % (nb, vmax, "CRC compared" if crc else "CRC not compared in this query (see emit_crc_*)"),
+        assumptions=["the IBWT list is given directly (arbitrary links < block size); decode() that builds it is checked separately"],
+        outside=["blocks above %d bytes / count bytes above %d; more than two suspensions per block" % (nb, vmax)])
